@@ -190,7 +190,7 @@ func (s *shape) userDecls(b *strings.Builder) {
 	}
 	fmt.Fprintf(b, "var f%d %s\n", s.id, s.funcType())
 	if s.plugin == "apply" {
-		fmt.Fprintf(b, "var l%d %s\n", s.id, s.goType(s.outer[len(s.outer)-1].c))
+		fmt.Fprintf(b, "var l%d %s\nvar _ = l%d\n", s.id, s.goType(s.outer[len(s.outer)-1].c), s.id)
 	}
 }
 
@@ -201,7 +201,16 @@ func (s *shape) userCall(b *strings.Builder) {
 	case "flip":
 		fmt.Fprintf(b, "\tderiveFlip%d(f%d)\n", s.id, s.id)
 	case "apply":
-		fmt.Fprintf(b, "\tderiveApply%d(f%d, l%d)\n", s.id, s.id, s.id)
+		// every second shape whose last parameter accepts one pre-binds an untyped constant instead of a
+		// variable (2 is assignable to float64 or a named integer although its default type int is not)
+		switch sym := carriers[s.outer[len(s.outer)-1].c].sym; {
+		case s.id%2 == 0 && (sym == "K" || sym == "int" || sym == "f64" || sym == "iface"):
+			fmt.Fprintf(b, "\tderiveApply%d(f%d, 2)\n", s.id, s.id)
+		case s.id%2 == 0 && sym == "string":
+			fmt.Fprintf(b, "\tderiveApply%d(f%d, \"2\")\n", s.id, s.id)
+		default:
+			fmt.Fprintf(b, "\tderiveApply%d(f%d, l%d)\n", s.id, s.id, s.id)
+		}
 	case "uncurry":
 		fmt.Fprintf(b, "\tderiveUncurry%d(f%d)\n", s.id, s.id)
 	case "rt":
@@ -391,7 +400,7 @@ func main() {
 var plainNames = []string{"a", "b", "c", "d", "e", "g"}
 
 // naming modes of a flat parameter list of length n
-var flatModes = []string{"named", "blank-some", "blank-all", "unnamed", "one-f", "prefix-clash", "prefix-plain", "gen-names", "blank-f", "common-names"}
+var flatModes = []string{"named", "blank-some", "blank-all", "unnamed", "one-f", "prefix-clash", "prefix-mix", "prefix-plain", "gen-names", "blank-f", "common-names"}
 
 func nameParams(r *hx.Rand, mode string, n int) []string {
 	ns := make([]string, n)
@@ -425,6 +434,36 @@ func nameParams(r *hx.Rand, mode string, n int) []string {
 		j := (k + 1 + r.Intn(n-1)) % n
 		ns[k] = "_"
 		ns[j] = fmt.Sprintf("param_%d", k)
+	case "prefix-mix":
+		// several blanks among several user names with the generator's prefix: whatever the blanks are
+		// called must differ from each other and from the user's names
+		if n == 3 && r.Intn(2) == 0 {
+			return []string{"_", "_", "param_0"}
+		}
+		used := map[string]bool{}
+		nb := 0
+		for i := range ns {
+			if r.Intn(2) == 0 {
+				ns[i] = "_"
+				nb++
+				continue
+			}
+			for {
+				c := fmt.Sprintf("param_%d", r.Intn(n+1))
+				if !used[c] {
+					used[c] = true
+					ns[i] = c
+					break
+				}
+			}
+		}
+		for i := 0; nb < 2 && i < n; i++ {
+			if ns[i] != "_" && len(used) > 1 {
+				delete(used, ns[i])
+				ns[i] = "_"
+				nb++
+			}
+		}
 	case "prefix-plain":
 		// a name with the generator's prefix but no blank parameter: nothing is renamed
 		ns[r.Intn(n)] = fmt.Sprintf("param_%d", r.Intn(n))
